@@ -2180,12 +2180,16 @@ func CreateCertificateRequest(rand io.Reader, template *CertificateRequest, sign
 
 		// Append the extensions to an existing attribute if possible.
 		appended := false
-		for _, atvSet := range attributes {
+		for i, atvSet := range attributes {
 			if !atvSet.Type.Equal(oidExtensionRequest) || len(atvSet.Value) == 0 {
 				continue
 			}
 
-			atvSet.Value[0] = append(atvSet.Value[0], atvs...)
+			// attributes is a shallow copy of template.Attributes: Value still belongs to the
+			// template, so build new slices instead of storing into (or appending to) its elements
+			value := append([][]pkix.AttributeTypeAndValue(nil), atvSet.Value...)
+			value[0] = append(append([]pkix.AttributeTypeAndValue(nil), atvSet.Value[0]...), atvs...)
+			attributes[i].Value = value
 			appended = true
 			break
 		}
